@@ -210,12 +210,16 @@ pub fn run_c16(run: &mut Run, replay: Option<&std::path::Path>) -> anyhow::Resul
             ops.push(op.clone());
             run.op_in(ctx, op, out);
         };
+        // independent bookkeeping for the oracle below: per router on the stack, the static (capture-free)
+        // patterns it accepted and the service registered under each
+        let mut statics: Vec<Vec<(String, u64)>> = vec![vec![]];
         stack.push(Router::new());
         emit(run, &mut ops, &mut ctx, "router.new".into(), "ok".into());
         for _ in 0..steps {
             match rng.below(10) {
                 0 | 1 => {
                     stack.push(Router::new());
+                    statics.push(vec![]);
                     emit(run, &mut ops, &mut ctx, "router.new".into(), "ok".into());
                 }
                 2..=5 => {
@@ -228,6 +232,9 @@ pub fn run_c16(run: &mut Run, replay: Option<&std::path::Path>) -> anyhow::Resul
                     match quiet(move || top.route(&p2, TagSvc(svc))) {
                         Ok(r) => {
                             stack.push(r);
+                            if path.starts_with('/') && !path.contains('*') && !path.contains(':') {
+                                statics.last_mut().unwrap().push((path.clone(), svc));
+                            }
                             patterns.push(path.clone());
                             run.count("route", "ok");
                             emit(run, &mut ops, &mut ctx, format!("router.route path={} svc={svc}", hexs(path.as_bytes())), "ok".into());
@@ -276,6 +283,8 @@ pub fn run_c16(run: &mut Run, replay: Option<&std::path::Path>) -> anyhow::Resul
                         match quiet(move || a.merge(b)) {
                             Ok(m) => {
                                 stack.push(m);
+                                let tb = statics.pop().unwrap();
+                                statics.last_mut().unwrap().extend(tb);
                                 run.count("merge", "ok");
                                 emit(run, &mut ops, &mut ctx, "router.merge".into(), "ok".into());
                             }
@@ -300,6 +309,15 @@ pub fn run_c16(run: &mut Run, replay: Option<&std::path::Path>) -> anyhow::Resul
                 let mut o = ops.clone();
                 o.push(op.clone());
                 run.oracle_fail(json!({"kind": format!("router: {}", out.split(':').next().unwrap_or("?")), "ops": o, "impl": out.clone(), "path": path.chars().take(80).collect::<String>()}));
+            }
+            // property oracle without the model: a request for exactly a registered capture-free path is
+            // answered by the service registered for it (whatever merges and layers came in between)
+            if let Some((_, svc)) = statics.last().unwrap().iter().find(|(p, _)| *p == path) {
+                if !out.starts_with(&format!("svc={svc} ")) {
+                    let mut o = ops.clone();
+                    o.push(op.clone());
+                    run.oracle_fail(json!({"kind": "router: a request for a registered path was not answered by the service registered for that path", "ops": o, "impl": out.clone(), "expected_service": svc}));
+                }
             }
             // property oracle without the model: empty / slash-less routes are never served
             if (path.is_empty() || !path.starts_with('/')) && out != "404" {
